@@ -1,5 +1,8 @@
 import BlochVerif.Sim.Tensor
 import BlochVerif.Eval.QubitBookProofs
+import BlochVerif.Eval.Shape
+import BlochVerif.Eval.Control
+import BlochVerif.Eval.FlagsAgree
 /-!
 # C03 — the state stays a unit `2^n` vector, in any history (simulator half)
 
@@ -141,5 +144,41 @@ theorem a_new_handle_never_aliases_a_live_one (ops : List Op) (op : Op) :
 /-- a released index is handed out again only after its owner died: recycling is last-released-first -/
 example : (run {} [.newObj 1 2, .declare 1, .destroy 1, .declare 1, .newObj 2 2]).2 =
     [[0, 1], [2], [], [1], [0, 3]] := by decide
+
+end BlochVerif.Props.C03
+
+/-! ## evaluator level: every program, every state it can reach -/
+namespace BlochVerif.Props.C03
+open BlochVerif BlochVerif.Eval BlochVerif.Parse
+
+/-- **Whatever a program does** — any function, any body, any arguments, any fuel, any draws — the state vector the
+simulator holds afterwards has exactly `2 ^ n` amplitudes for its `n` qubits, and `n` has not decreased: the
+register is never shrunk, so a handle that was inside the register stays inside it (induction principle of the
+evaluator model, `Eval/Shape.lean`). -/
+theorem a_program_keeps_the_state_vector_at_two_pow_n (fuel : Nat) (fn : FuncDecl) (args : List Value)
+    (st st' : EState) (v : Value) (hs : st.sim.amps.size = 2 ^ st.sim.n)
+    (h : (call fuel fn args).run st = .ok (v, st')) :
+    st'.sim.amps.size = 2 ^ st'.sim.n ∧ st.sim.n ≤ st'.sim.n :=
+  call_keeps_the_register_shaped fuel fn args st st' v hs h
+
+/-- the same for a whole run, started from the empty register: normal end or error, the register handed back has
+`2 ^ n` amplitudes -/
+theorem a_run_ends_with_a_two_pow_n_state_vector (prog : Program) (draws : List Float) (e l : Bool) (fuel : Nat) :
+    (execute prog draws e l fuel).sim.amps.size = 2 ^ (execute prog draws e l fuel).sim.n :=
+  execute_shaped prog draws e l fuel
+
+/-- the evaluator's own qubit table has one entry per simulator qubit in every reachable state, so every handle it
+has handed to the program indexes inside the register (`Eval.Agree`, the invariant of C06, carries the count) -/
+theorem the_evaluator_knows_exactly_the_simulators_qubits (fuel : Nat) (fn : FuncDecl) (args : List Value)
+    (st st' : EState) (v : Value) (hi : Agree st) (h : (call fuel fn args).run st = .ok (v, st')) :
+    st'.qubits.length = st'.sim.n ∧ st'.sim.measured.size = st'.sim.n :=
+  let a := call_keeps_flags_in_agreement fuel fn args st st' v hi h
+  ⟨a.count, a.flags⟩
+
+/-- the hypotheses are met by the state every run starts in -/
+example (prog : Program) (draws : List Float) (e l : Bool) :
+    (startState prog draws e l).sim.amps.size = 2 ^ (startState prog draws e l).sim.n ∧
+      Agree (startState prog draws e l) :=
+  ⟨by simp [startState, Sim.State.init], ⟨rfl, rfl, fun i hi => by simp [startState, Sim.State.init] at hi⟩⟩
 
 end BlochVerif.Props.C03
